@@ -170,55 +170,23 @@ Proof.
   - eexists. split; [reflexivity|]. exact Hle.
 Qed.
 
-Lemma rm_imps_keeps moved b b' :
-  embb imp_leb b b' = true -> (forall i, In i b -> clean moved i) ->
-  embb imp_leb b (rm_imps moved b') = true.
-Proof.
-  rewrite !embb_iff. intro H. induction H; intro K.
-  - apply emb_nil.
-  - simpl. destruct (rm_imp moved b); [apply emb_skip|]; now apply IHemb.
-  - destruct (rm_imp_keeps moved a b H (K a (or_introl eq_refl))) as [i'' [E L]].
-    simpl. rewrite E. apply emb_take; [exact L|]. apply IHemb. intros i Hi. apply K. now right.
-Qed.
-
-Lemma rm_body_keeps moved b b' :
-  embb cimp_leb b b' = true -> (forall ci, In ci b -> clean moved (snd ci)) ->
-  embb cimp_leb b (rm_body moved b') = true.
-Proof.
-  rewrite !embb_iff. intro H. induction H; intro K.
-  - apply emb_nil.
-  - destruct b as [c i]. simpl. destruct (rm_imp moved i); [apply emb_skip|]; now apply IHemb.
-  - destruct a as [c i], b as [c' i']. unfold cimp_leb in H. simpl in H. apply andb_true_iff in H as [Hc Hl].
-    destruct (rm_imp_keeps moved i i' Hl (K (c, i) (or_introl eq_refl))) as [i'' [E L]].
-    simpl. rewrite E. apply emb_take.
-    + unfold cimp_leb. simpl. now rewrite Hc, L.
-    + apply IHemb. intros ci Hci. apply K. now right.
-Qed.
-
-Lemma in_all_imps s m i : In s m -> In i (stmt_imps s) -> In i (all_imps m).
-Proof. intros Hs Hi. unfold all_imps. apply in_flat_map. now exists s. Qed.
+Lemma top_imps_cons s l : top_imps (s :: l) = match s with SImp i => [i] | _ => [] end ++ top_imps l.
+Proof. reflexivity. Qed.
 
 Lemma remove_keeps moved m m' :
-  embeds m m' -> (forall i, In i (all_imps m) -> clean moved i) -> embeds m (remove moved m').
+  embeds m m' -> (forall i, In i (top_imps m) -> clean moved i) -> embeds m (remove moved m').
 Proof.
   unfold embeds. intro H. induction H; intro K.
   - apply emb_nil.
   - simpl. destruct b; try (apply emb_skip; now apply IHemb).
     destruct (rm_imp moved i); [apply emb_skip|]; now apply IHemb.
-  - assert (K' : forall i, In i (all_imps l) -> clean moved i).
-    { intros i Hi. apply K. unfold all_imps in *. simpl. apply in_or_app. now right. }
-    assert (Ka : forall i, In i (stmt_imps a) -> clean moved i).
-    { intros i Hi. apply K. unfold all_imps. simpl. apply in_or_app. now left. }
-    destruct a, b; simpl in H; try discriminate; simpl.
-    + apply emb_take; [exact H | now apply IHemb].
-    + destruct (rm_imp_keeps moved i i0 H (Ka i (or_introl eq_refl))) as [i'' [E L]].
-      rewrite E. apply emb_take; [exact L | now apply IHemb].
-    + apply emb_take; [| now apply IHemb]. simpl. apply rm_imps_keeps; [exact H | exact Ka].
-    + apply andb_true_iff in H as [Ht Hb]. apply emb_take; [| now apply IHemb]. simpl. rewrite Ht. simpl.
-      apply rm_body_keeps; [exact Hb|]. intros ci Hci. apply Ka. simpl. apply in_map_iff. now exists ci.
-    + apply andb_true_iff in H as [Ht Hb]. apply emb_take; [| now apply IHemb]. simpl. rewrite Ht. simpl.
-      apply rm_body_keeps; [exact Hb|]. intros ci Hci. apply Ka. simpl. apply in_map_iff. now exists ci.
-    + apply emb_take; [exact H | now apply IHemb].
+  - assert (K' : forall i, In i (top_imps l) -> clean moved i).
+    { intros i Hi. apply K. rewrite top_imps_cons. apply in_or_app. now right. }
+    destruct b; try (simpl; apply emb_take; [exact H | now apply IHemb]).
+    destruct a; simpl in H; try discriminate.
+    assert (Ka : clean moved i0) by (apply K; rewrite top_imps_cons; apply in_or_app; left; now left).
+    destruct (rm_imp_keeps moved i0 i H Ka) as [i'' [E L]].
+    simpl. rewrite E. apply emb_take; [exact L | now apply IHemb].
 Qed.
 
 (* ------------------------------------------------------------ insertions keep everything *)
@@ -284,23 +252,29 @@ Proof.
 Qed.
 
 (* ------------------------------------------------------------ clause 3: every source statement stays in place *)
+Lemma top_imps_all i m : In i (top_imps m) -> In i (all_imps m).
+Proof.
+  unfold top_imps, all_imps. rewrite !in_flat_map. intros [s [Hs Hi]]. exists s. split; [assumption|].
+  destruct s; simpl in Hi; try contradiction. simpl. exact Hi.
+Qed.
+
 Lemma kf_shadow_clean moved src :
   wf_module src = true ->
-  existsb (fun it => memb it moved) (all_items src) = false ->
-  forall i, In i (all_imps src) -> clean moved i.
+  existsb (fun it => memb it moved) (top_items src) = false ->
+  forall i, In i (top_imps src) -> clean moved i.
 Proof.
   intros Hwf Hk i Hi. split.
-  - unfold wf_module in Hwf. rewrite forallb_forall in Hwf. now apply Hwf.
+  - unfold wf_module in Hwf. rewrite forallb_forall in Hwf. apply Hwf. now apply top_imps_all.
   - intros it Hit. destruct (memb it moved) eqn:E; [|reflexivity].
-    assert (X : existsb (fun it => memb it moved) (all_items src) = true).
-    { apply existsb_exists. exists it. split; [|exact E]. unfold all_items. apply in_flat_map. now exists i. }
+    assert (X : existsb (fun it => memb it moved) (top_items src) = true).
+    { apply existsb_exists. exists it. split; [|exact E]. unfold top_items. apply in_flat_map. now exists i. }
     rewrite X in Hk. discriminate.
 Qed.
 
 Theorem confine_keeps_source moved src applied :
   wf_module src = true ->
   embedsb src applied = true ->
-  existsb (fun it => memb it moved) (all_items src) = false ->
+  existsb (fun it => memb it moved) (top_items src) = false ->
   embedsb src (confine_with moved applied) = true.
 Proof.
   intros Hwf He Hk. apply embedsb_iff. apply embedsb_iff in He. unfold confine_with.
